@@ -9,6 +9,16 @@ use self::reader::Read as _;
 use crate::symbol::Register;
 
 pub use self::reader::CommandReader;
+#[cfg(feature = "verif")]
+pub(crate) use self::reader::VerifTerminal;
+
+/// Parse a single command line; the command is returned as its `Debug` rendering.
+#[cfg(feature = "verif")]
+pub(crate) fn verif_parse_command(line: &str) -> Result<String, String> {
+    Command::try_from(line)
+        .map(|command| format!("{:?}", command))
+        .map_err(|error| format!("{:?}", error))
+}
 
 #[derive(Debug)]
 #[cfg_attr(test, derive(PartialEq))]
@@ -118,6 +128,8 @@ impl<'a> Command<'a> {
     {
         loop {
             let line = source.read()?.trim();
+            #[cfg(feature = "verif")]
+            crate::verif::command(line);
 
             // Necessary, since `Command::try_from` assumes non-empty line
             if line.is_empty() {
